@@ -335,6 +335,25 @@ func run(c Case) ([]vk.Violation, vk.Info) {
 		bad("map_key_identity", "map lookup by Equivalent() = %v; bit-equal %v go-equal %v", hit, be, ge)
 	}
 
+	// --- the other constructors and renderings agree with the contents ---
+	{
+		var tmp attribute.Sortable
+		viaSortable := attribute.NewSetWithSortable(append([]attribute.KeyValue{}, input...), &tmp) //nolint:staticcheck // deprecated, still exported
+		if !sameStrings(renderSlice(viaSortable.ToSlice()), want) {
+			bad("newsetwithsortable", "NewSetWithSortable = %v, model %v", renderSlice(viaSortable.ToSlice()), want)
+		}
+		ml, ok := s.MarshalLog().(map[string]string)
+		if !ok || len(ml) != len(m.keys) {
+			bad("marshallog", "MarshalLog() = %v, model has %d keys", s.MarshalLog(), len(m.keys))
+		} else {
+			for _, k := range m.keys {
+				if ml[k] != m.val[k].Emit() {
+					bad("marshallog", "MarshalLog()[%q] = %q, model %q", k, ml[k], m.val[k].Emit())
+				}
+			}
+		}
+	}
+
 	// --- every way of obtaining an empty set is the same set ---
 	{
 		var zero attribute.Set
